@@ -1,6 +1,6 @@
 CONSTANTS
   Faults = {}
-  Shapes <- ShapeClasses
+  Shapes <- ShapeClassesUsed
   MaxSteps <- EnvSteps
 INIT MCInit
 NEXT MCNext
